@@ -42,7 +42,6 @@ TOL_CROSS_DEFAULT = 1e-5
 TOL_RESID = {'metastable': 1e-3, 'real-wide': 1e-3}
 TOL_RESID_DEFAULT = 1e-5
 TOL_LOGL = 1e-7           # relative to 1 + |L|
-KEY_WARN = 'convergence-warning-typeerror'
 PY_SWEEP_BUDGET = 4000    # do not run the pure-Python estimator when the model needs more sweeps
 
 
@@ -329,6 +328,20 @@ def maxdiff(a, b):
     return max(float(np.max(np.abs(a[0] - b[0]))), float(np.max(np.abs(a[1] - b[1]))))
 
 
+def _decide_with_doubled_tol(ctx, C, impl, ref, rerun):
+    """both sides with tol=2e-10: they must stop before the cap, agree with each other and with
+    the side that had stopped at tol=1e-10 (`ref`)"""
+    g2 = rerun(2e-10)
+    m2 = model_result(ctx.driver([model_req(C, impl, tol=2e-10)])[0])
+    if 'ok' in g2 and 'ok' in m2 and 'ConvergenceWarning' not in g2.get('warned', []) \
+            and not m2.get('warned') and maxdiff(g2['ok'], m2['ok']) <= 1e-6 \
+            and maxdiff(g2['ok'], ref['ok']) <= 1e-6:
+        ctx.skip('stopping test at rounding-noise level: one of model/implementation ran to the '
+                 'iteration cap, both stop and agree with tol=2e-10')
+        return True
+    return False
+
+
 def compare_with_model(ctx, C, impl, got, mres, what, replay, rerun=None):
     """got: call_impl result of the real code, mres: model_result.  Returns True when they agree.
     rerun(tol) re-runs the implementation with another tolerance (used when one side ran into the
@@ -337,14 +350,8 @@ def compare_with_model(ctx, C, impl, got, mres, what, replay, rerun=None):
         if got.get('error') == mres.get('error'):
             return True
         if {got.get('error'), mres.get('error')} == {'type-error', None} and rerun is not None:
-            # one side stopped, the other ran to the cap: decide with a doubled tolerance on both
-            g2 = rerun(2e-10)
-            m2 = model_result(ctx.driver([model_req(C, impl, tol=2e-10)])[0])
-            ref = got if 'ok' in got else mres
-            if 'ok' in g2 and 'ok' in m2 and maxdiff(g2['ok'], m2['ok']) <= 1e-6 \
-                    and maxdiff(g2['ok'], ref['ok']) <= 1e-6:
-                ctx.skip('stopping test at rounding-noise level: one of model/implementation ran to the '
-                         'iteration cap, both stop and agree with tol=2e-10')
+            # (regressed call site) one side stopped, the other ran to the cap
+            if _decide_with_doubled_tol(ctx, C, impl, got if 'ok' in got else mres, rerun):
                 return True
         ctx.disagreement('%s: implementation %s vs model %s' % (
             what, got.get('error', 'returned'), mres.get('error', 'returned')), replay)
@@ -352,6 +359,13 @@ def compare_with_model(ctx, C, impl, got, mres, what, replay, rerun=None):
     d = maxdiff(got['ok'], mres['ok'])
     if d <= TOL_MODEL:
         return True
+    cap_real = 'ConvergenceWarning' in got.get('warned', [])
+    cap_model = bool(mres.get('warned'))
+    if cap_real != cap_model and rerun is not None:
+        # one side stopped while the other's pseudo log-likelihood kept changing at rounding-noise
+        # level until the iteration cap
+        if _decide_with_doubled_tol(ctx, C, impl, mres if cap_real else got, rerun):
+            return True
     # the convergence test compares libm/numpy logarithms: look at neighbouring iterates
     k = mres['n_iter'] + 1
     ks = [x for x in (k - 2, k - 1, k + 1, k + 2) if x >= 1]
@@ -410,7 +424,7 @@ def check_matrix(ctx, C, kind, m_py, m_c, sparse_fmt=None, int_dtype=False):
             if got['error'] == 'type-error':
                 ctx.tag('default-cap-reached')
                 ctx.violation('%s estimator: iteration cap reached and warnings.warn raised TypeError '
-                              'instead of a ConvergenceWarning' % impl, r, key=KEY_WARN)
+                              'instead of a ConvergenceWarning' % impl, r)
             elif got['error'] == 'assertion':
                 ctx.violation('%s estimator ended in an AssertionError (%s)' % (impl, got['msg']), r)
             else:
@@ -423,11 +437,17 @@ def check_matrix(ctx, C, kind, m_py, m_c, sparse_fmt=None, int_dtype=False):
             ctx.violation('%s estimator: %s' % (impl, prob), r)
             continue
         compare_with_model(ctx, C, impl, got, mres, '%s estimator' % impl, r, rerun=rerun)
+        if 'ConvergenceWarning' in got.get('warned', []):
+            # the property allows "a model or a convergence warning": an unconverged iterate is
+            # valid (checked above) but need not satisfy the fixed-point equations yet
+            ctx.tag('default-cap-reached-with-warning')
+            continue
         # Prinz self-consistency
         res = prinz_residual(C, T, pi)
         if res > TOL_RESID.get(kind, TOL_RESID_DEFAULT):
             tight = call_impl(builders._prinz_mle, np.array(C, dtype=float), tol=1e-13, max_iter=10 ** 6)
-            if 'ok' in tight and prinz_residual(C, *tight['ok']) <= TOL_RESID_DEFAULT and \
+            if 'ok' in tight and 'ConvergenceWarning' not in tight['warned'] and \
+                    prinz_residual(C, *tight['ok']) <= TOL_RESID_DEFAULT and \
                     maxdiff(tight['ok'], got['ok']) <= 1e-3:
                 ctx.skip('Prinz residual above tolerance at tol=1e-10 but the iteration is still converging (stop-sensitive)')
             else:
@@ -461,22 +481,25 @@ def check_matrix(ctx, C, kind, m_py, m_c, sparse_fmt=None, int_dtype=False):
                 break
 
     # the two implementations against each other
-    if 'py' in results and 'ok' in results['py'] and 'ok' in got_c:
+    capped = any('ConvergenceWarning' in r_.get('warned', []) for r_ in results.values())
+    if 'py' in results and 'ok' in results['py'] and 'ok' in got_c and not capped:
         d = maxdiff(results['py']['ok'], got_c['ok'])
         ctx.tag('cross-impl')
         if d > TOL_CROSS.get(kind, TOL_CROSS_DEFAULT):
             # they stop at different sweeps (log vs log10 in the convergence test): tighten both
             tp = call_impl(builders._prinz_mle_py, C, tol=1e-12, max_iter=3000)
             tc = call_impl(builders._prinz_mle, np.array(C, dtype=float), tol=1e-12 / np.log(10), max_iter=3000)
-            if 'ok' in tp and 'ok' in tc and maxdiff(tp['ok'], tc['ok']) <= 1e-7:
+            if 'ok' in tp and 'ok' in tc and 'ConvergenceWarning' in tp['warned'] + tc['warned']:
+                ctx.skip('py/compiled cross check undecided (slow convergence)')
+            elif 'ok' in tp and 'ok' in tc and maxdiff(tp['ok'], tc['ok']) <= 1e-7:
                 ctx.skip('py/compiled differ at tol=1e-10 only through their stopping sweep')
             elif 'ok' in tp and 'ok' in tc:
                 ctx.violation('compiled and pure-Python estimators disagree by %.3g' % d, dict(rep, via='cross'))
             else:
                 ctx.skip('py/compiled cross check undecided (slow convergence)')
 
-    # builders.mle: dense int / dense float / sparse
-    if 'py' in results and 'ok' in results['py']:
+    # builders.mle: dense int / dense float / sparse (not repeated for runs that went to the cap)
+    if 'py' in results and 'ok' in results['py'] and not capped:
         arg = C
         if int_dtype and np.all(C == np.round(C)):
             arg = C.astype(np.int64)
@@ -520,7 +543,7 @@ def warn_site_check(ctx):
             if got.get('error') == 'type-error':
                 ctx.violation('%s estimator with max_iter=%d: warnings.warn(exception.ConvergenceWarning, "...") '
                               'raises TypeError instead of emitting the convergence warning'
-                              % (impl, max_iter), rep, key=KEY_WARN)
+                              % (impl, max_iter), rep)
             elif 'error' in got:
                 ctx.violation('%s estimator with max_iter=%d raised %s' % (impl, max_iter, got['error']), rep)
             else:
